@@ -97,6 +97,12 @@ func (c04) Gen(r *rand.Rand, tier string, run int) *core.Case {
 			c.Params["lend"] = 2
 		}
 		c.Params["raw"] = 0
+		// the lent objects answer some of the calls with an error of their own
+		// (not where the known finding mixes the objects' answers up)
+		c.Params["lent_refuses"] = []int{0, 2, 3, 5}[r.IntN(4)]
+		if c.Params["lend"] == 2 {
+			c.Params["lent_refuses"] = 0
+		}
 		if nObj < 2 {
 			nObj = 2
 			c.Params["objects"] = 2
@@ -269,7 +275,7 @@ func (c04) Run(c *core.Case, env *core.Env) {
 				refs[cn] = proxies[cn][o].Proxy().ProxyService(nil)
 			}
 			svcRef := refs[cn]
-			lp, err := probe.CreateLent(nil, svcRef, &LentImpl{Env: env, Obj: 100 + o})
+			lp, err := probe.CreateLent(nil, svcRef, &LentImpl{Env: env, Obj: 100 + o, RefuseEvery: c.P("lent_refuses", 0)})
 			if err == nil {
 				err = proxies[cn][o].Lend(lp)
 			}
@@ -540,7 +546,19 @@ func (c04) Check(c *core.Case, env *core.Env, res zzsim.Result, v *core.Verdict)
 			// only: its caller cancelled it, or the endpoint shed it because a
 			// queue was full and said so. Anything else means the call's own
 			// answer went astray.
-			if !h.OK && strings.HasSuffix(h.Arg, fmt.Sprintf("@o%d", c.P("doomed_obj", -1))) && strings.Contains(h.Err, "bject not found") {
+			refused := false
+			if h.Kind == "relay" {
+				var cl, sq int
+				fmt.Sscanf(key, "c%d#%d/", &cl, &sq)
+				refused = LentRefuses(c.P("lent_refuses", 0), int32(sq))
+			}
+			if refused && h.OK {
+				bad("wrong-reply", "%s succeeded although the lent object answered this token with an error", h)
+			} else if refused && strings.Contains(h.Err, fmt.Sprintf("refuses token")) {
+				// the lent object's own error, carried back through the
+				// service to the caller
+				env.Probe("lent-object-error-reached-the-caller")
+			} else if !h.OK && strings.HasSuffix(h.Arg, fmt.Sprintf("@o%d", c.P("doomed_obj", -1))) && strings.Contains(h.Err, "bject not found") {
 				env.Probe("call-to-the-terminated-object-refused")
 			} else if !h.OK && c.Batch != "faults" && !strings.Contains(h.Err, "ancel") && !strings.Contains(h.Err, "consumer blocked") {
 				bad("answer-lost-on-healthy-connection", "%s failed although nothing is wrong with the connection and nobody cancelled it: %s", h, h.Err)
